@@ -6,6 +6,14 @@ ALL = ["C%02d" % i for i in range(1, 21)]
 
 # id -> (technique, level text, level note, design ref)
 CLAIMED = {
+ "C05": ("exhaustive scope skeletons + shadowing-biased random programs; resolution read from the HIR and compared with the generator's binder for every use",
+         "Exploration: every sequence of <=5 (quick) / <=6 (thorough) scope operations over two names (let, use, open/close if-block, match arm, closure, while body) is turned into a program, plus random longer skeletons and type-directed programs from a 3-name pool. For each accepted program every use's NameRef::Local id must equal the id of the binder the generator intended, a well-scoped program must not be rejected for scoping reasons, an unbound use must be rejected, and the compiled program must print the intended binder's value (reference interpreter vs Go-subset interpreter).",
+         "Trusted: the harness' own scoping model (a stack), text-range matching of binders/uses, miniGo for the behavioural part. Depth beyond the enumerated skeleton length is only sampled.",
+         "DESIGN.md §5 C05"),
+ "C11": ("exhaustive operator pairs/triples (quads thorough) + random syntax trees printed with minimal parentheses and random trivia; parse-back round trip; literal fidelity oracle",
+         "Exploration: all trees over 20 operators of size 2 and 3 (4 in thorough) in three contexts, the same trees fully parenthesised, random whole files over every item/expr/pattern/type form, and enumerated + random literal spellings. Oracle: convert(parse_ast_file(print(t))) == t structurally; a literal's AST value equals the characters/number it denotes. A deliberately wrong printer (omitting needed parentheses) must be rejected by the oracle in setup, else exit 2.",
+         "Trusted: the harness' tree model, printer and AST converter (written from the documented binding powers); derive expansion is avoided in round-trip trees.",
+         "DESIGN.md §5 C11"),
  "C04": ("fuzzing-style generated inputs (Unicode/token soups, corpus mutations, deep nesting, JSON artifact mutations) against a crash/diagnostic oracle",
          "Exploration: random Unicode and token sequences, mutated corpus programs, 1..256-deep nestings of every bracketing form, and single-leaf/raw mutations of the interface/core artifacts of all corpus projects are pushed through compile, check_package, build_package, read_core and link_cores under panic capture in memory-capped worker processes; Err must carry an error diagnostic, ranges must lie in the text. Absence of crashes beyond the explored inputs is not shown.",
          "Trusted: in-process calls stand for the CLI subcommands; non-termination is only observable as a watchdog hit (reported as inconclusive, exit 2); resource exhaustion is observed as a worker abort under a 6 GiB address-space cap.",
